@@ -21,11 +21,16 @@ func init() {
 					Type: "symbol|lambda",
 					Text: "The function to call.",
 				},
+				{
+					Name: "arg",
+					Type: "object",
+					Text: "The first argument to the _function_ or, if there are no more _args_, the _list_ of all its arguments.",
+				},
 				{Name: "&rest"},
 				{
 					Name: "args",
 					Type: "object",
-					Text: "The arguments to the _function_. The last argument must be a _list_.",
+					Text: "More arguments to the _function_. The last argument must be a _list_ of the remaining arguments.",
 				},
 			},
 			Return: "nil",
